@@ -10,6 +10,7 @@ import FontVerif.Lemmas.SubsetCmap12
 import FontVerif.Lemmas.SubsetCmap4
 import FontVerif.Lemmas.SubsetCmap4Top
 import FontVerif.Lemmas.SubsetCmapTable
+import FontVerif.Lemmas.SubsetCmapUvs
 set_option linter.unusedVariables false
 namespace FontVerif.C17Cmap
 open FontVerif FontVerif.Cmap FontVerif.SubsetCmap
@@ -301,5 +302,41 @@ example : copyNonDefault examplePlan [(0x4E00, 7), (0x4E01, 8), (0x4E02, 9)] =
 example : survives examplePlan [] false ⟨1, 0, .other 6 0⟩ = false := by decide
 example : retainRecord ⟨3, 10, .unreadable⟩ = true ∧ retainRecord ⟨1, 0, .other 6 0⟩ = false ∧
     retainRecord ⟨0, 5, .f14 []⟩ = true := by decide
+
+/-! ### format 14: default UVS -/
+
+/-- `copy_default_uvs` (both of its branches, after fix 2e8ae31), for every well-formed source table
+(ranges ascending and disjoint, none starting at U+0000) and every plan (unicodes strictly ascending):
+the ranges it writes stand for exactly the plan's unicodes that lie in a source range — the default
+variation sequences of the source restricted to the kept characters — and no written count exceeds
+255 (one byte). -/
+theorem uvs_default_retained (p : PlanIn) (ranges rs : List (Nat × Nat))
+    (hw : ranges.Pairwise (fun a b => a.1 + a.2 < b.1)) (hpos : ∀ r ∈ ranges, 1 ≤ r.1)
+    (hasc : p.unicodes.Pairwise (· < ·)) (hlt : ∀ u ∈ p.unicodes, u < INVALID)
+    (h : copyDefault p ranges = some rs) :
+    (∀ c, c ∈ expandUvs rs ↔ c ∈ p.unicodes ∧ ∃ r ∈ ranges, r.1 ≤ c ∧ c ≤ r.1 + r.2) ∧
+    ∀ r ∈ rs, r.2 ≤ 255 := by
+  unfold copyDefault at h
+  split at h
+  · cases Option.some.inj h
+    obtain ⟨e1, e2⟩ := defaultFew_spec ranges p.unicodes hasc hlt
+    refine ⟨fun c => ?_, e2⟩
+    rw [e1, List.mem_filter, foundIn_iff ranges hw c]
+  · obtain ⟨e1, e2⟩ := defaultMany_spec p.unicodes hasc hlt ranges INVALID rs hw hpos (Or.inl rfl) h
+    refine ⟨fun c => ?_, fun r hr => by rw [e2 r hr]; omega⟩
+    rw [expandUvs_singletons rs e2, e1]
+    simp only [pend, if_true, List.nil_append, List.mem_flatMap, visited, List.mem_filter,
+      decide_eq_true_eq]
+    constructor
+    · rintro ⟨r, hr, hc, h1, h2⟩
+      exact ⟨hc, r, hr, by omega, by omega⟩
+    · rintro ⟨hc, r, hr, h1, h2⟩
+      have := hpos r hr
+      exact ⟨r, hr, hc, by omega, by omega⟩
+
+/-- non-vacuity (the "many unicodes" branch; the binary search of the other branch is defined by
+well-founded recursion and does not reduce by `decide` — it is exercised by the correspondence runs) -/
+example : copyDefault { examplePlan with unicodes := [0x4E00, 0x4E01, 0x4E02, 0x4E10] } [(0x4E00, 2), (0x4E10, 0)] =
+    some [(0x4E00, 0), (0x4E01, 0), (0x4E02, 0), (0x4E10, 0)] := by decide
 
 end FontVerif.C17Cmap
